@@ -118,7 +118,7 @@ def handle_history(rng, h, n):
     for _ in range(n):
         r = rng.random()
         if r < 0.35:
-            out.append('write %d %s' % (h, H(rng.choice(CONTENTS[1:] + [b'Z', b'QQ']))))
+            out.append('write %d %s' % (h, H(rng.choice(CONTENTS[1:] + [b'Z', b'QQ', b'']))))
         elif r < 0.6:
             wh = rng.choice([0, 0, 1, 2])
             off = rng.choice([0, 0, 1, 2, 3, 5, 9, 12, -1, -2, -5, 40])
@@ -165,6 +165,12 @@ def fs_files_cases(rng, n):
     return cases
 
 
+def trail(rng):
+    """a trailing separator now and then (only for Directory::create / unlink / exists, see level_note)"""
+    r = rng.random()
+    return '/' if r < 0.12 else ('//' if r < 0.15 else '')
+
+
 def fs_dirs_cases(rng, n):
     cases = []
     for _ in range(n):
@@ -178,15 +184,15 @@ def fs_dirs_cases(rng, n):
                 p = base + ('/' + extra if extra else '')
                 if rng.random() < 0.1:
                     p = p + '/..'
-                c.append('create ' + H(p))
+                c.append('create ' + H(p + trail(rng)))
             elif r < 0.85:
                 p = rand_fs_path(rng, dirs, files, lnks, fresh=0.2)
                 rec = 1 if rng.random() < 0.8 else 0
                 if p.endswith('..'):
                     rec = 0
-                c.append('dunlink %s %d' % (H(p), rec))
+                c.append('dunlink %s %d' % (H(p + trail(rng)), rec))
             elif r < 0.93:
-                c.append('exists ' + H(rand_fs_path(rng, dirs, files, lnks)))
+                c.append('exists ' + H(rand_fs_path(rng, dirs, files, lnks) + trail(rng)))
             else:
                 c.append('symlink %s %s' % (H(rng.choice(LINK_TARGETS)), H(rand_fs_path(rng, dirs, files, lnks, fresh=0.8))))
         cases.append(c)
@@ -254,6 +260,84 @@ def fs_transfer_cases(rng, n, big):
     return cases
 
 
+BIG_SIZES = [65535, 65536, 65537, 70001, 131073, 200003]
+
+
+def fs_big_cases(rng, n, thorough):
+    """contents beyond every internal buffer size: readAll / read / write / append / copy / rename"""
+    cases = []
+    sizes = BIG_SIZES + ([524289, 1048577] if thorough else [])
+    for i in range(n):
+        size = sizes[i % len(sizes)]
+        s1, s2 = rng.randrange(100), rng.randrange(100)
+        c = ['@fs'] + sentinel() + ['mkfbig %s %d %d' % (H('f'), s1, size)]
+        k = i % 4
+        if k == 0:
+            c += ['open 0 %s 1' % H('f'), 'size 0', 'readall 0', 'seek 0 -5 2', 'read 0 100', 'seek 0 65530 0', 'read 0 12', 'close 0']
+        elif k == 1:
+            c += ['copy %s %s %d' % (H('f'), H('g'), rng.randrange(2)), 'open 0 %s 11' % H('g'), 'seek 0 %d 0' % (size - 7), 'writebig 0 %d 70000' % s2,
+                  'seek 0 0 0', 'readall 0', 'size 0', 'close 0', 'open 0 %s 1' % H('f'), 'readall 0', 'close 0']
+        elif k == 2:
+            c += ['open 0 %s 6' % H('f'), 'writebig 0 %d %d' % (s2, rng.choice([1, 65536, 70001])), 'close 0', 'open 0 %s 1' % H('f'), 'readall 0', 'close 0',
+                  'rename %s %s 1' % (H('f'), H('../out/s/h')), 'open 0 %s 1' % H('../out/s/h'), 'readall 0', 'close 0']
+        else:
+            c += ['open 0 %s 3' % H('n'), 'writebig 0 %d %d' % (s2, size), 'seek 0 1 0', 'writebig 0 %d 300' % s1, 'seek 0 0 0', 'readall 0', 'close 0',
+                  'copy %s %s 0' % (H('n'), H('f')), 'open 0 %s 1' % H('f'), 'seek 0 -%d 2' % min(size, 66000), 'readall 0', 'close 0']
+        cases.append(c)
+    return cases
+
+
+ABS = '/g1/g2/g3/in/'
+
+
+def fs_absolute_cases(rng, n):
+    """absolute path texts and absolute link targets, inside a chroot whose root is the model's root"""
+    cases = []
+    for _ in range(n):
+        lines, dirs, files, lnks = rand_tree(rng, links=False)
+        c = ['@fsroot'] + sentinel() + lines
+        for _ in range(rng.randrange(0, 3)):
+            nm = rng.choice(['l', 'l2', 'c'])
+            if nm not in dirs and nm not in files and nm not in lnks:
+                lnks.append(nm)
+                c.append('mkl %s %s' % (H(rng.choice(['/g1/g2/g3/out', '/g1/g2/g3/out/s', '/g1/g2/g3/in/a', '/', '/nowhere', '/g1/g2/g3/out/k', '//g1'])), H(nm)))
+
+        def ap(p):
+            r = rng.random()
+            if r < 0.6:
+                return ABS + p
+            if r < 0.7:
+                return '/' + rng.choice(['x', 'x/y', 'x/y/z', 'g1/n', 'g1/g2/n/m'])
+            if r < 0.8:
+                return '//g1/g2//g3/in/' + p
+            if r < 0.9:
+                return '/g1/g2/g3/out/' + rng.choice(['s', 'k', 's/keep', 'new', 's/new/x'])
+            return p
+        for _ in range(rng.randrange(1, 5)):
+            r = rng.random()
+            p = ap(rand_fs_path(rng, dirs, files, lnks, fresh=0.4))
+            if r < 0.35:
+                c.append('create ' + H(p + trail(rng)))
+            elif r < 0.5:
+                c.append('dunlink %s %d' % (H(p), 0 if p.endswith('..') or p.count('/') < 2 else rng.randrange(2)))
+            elif r < 0.6:
+                c.append('exists ' + H(rng.choice([p, '/', '//', '/g1', '/g1/g2/g3/in', '/x'])))
+            elif r < 0.72:
+                c.append('rename %s %s %d' % (H(p), H(ap(rand_fs_path(rng, dirs, files, lnks, fresh=0.7))), rng.randrange(2)))
+            elif r < 0.84:
+                c.append('copy %s %s %d' % (H(p), H(ap(rand_fs_path(rng, dirs, files, lnks, fresh=0.7))), rng.randrange(2)))
+            elif r < 0.92:
+                c += ['open 0 %s %d' % (H(p), rng.choice([1, 2, 3, 6, 11])), 'write 0 %s' % H(b'ABS'), 'close 0', 'open 0 %s 1' % H(p), 'readall 0', 'close 0']
+            else:
+                c.append('funlink ' + H(p))
+        cases.append(c)
+    # the root itself and its children: the empty-parent branch of Directory::create
+    for p in ['/', '//', '/x', '/x/', '//x', '/x/y', '/x/y/z/', '/g1', '/g1/n', '/../x', '/./x', '/g1/../y/z']:
+        cases.append(['@fsroot'] + sentinel() + ['create ' + H(p)])
+        cases.append(['@fsroot'] + sentinel() + ['create ' + H(p), 'exists ' + H(p), 'dunlink %s 0' % H(p)])
+    return cases
+
+
 FIXED_TREES = [
     [],
     ['mkd ' + H('a'), 'mkf %s %s' % (H('a/f'), H(b'hello')), 'mkf %s %s' % (H('b'), H(b'bb')), 'mkl %s %s' % (H('../out'), H('l'))],
@@ -284,6 +368,11 @@ def fs_exhaustive_cases(thorough):
             cases.append(['@fs'] + sentinel() + tree + ['dunlink %s 1' % H(p)])
             if thorough:
                 cases.append(['@fs'] + sentinel() + tree + ['dunlink %s 0' % H(p)])
+    for tree in FIXED_TREES:
+        for p in ['a/', 'b/', 'l/', 'f/', 'n/', 'a/b/', 'a/l/', 'a/n/', 'n/m/', 'a//', 'l/x/', './', 'a/./']:
+            cases.append(['@fs'] + sentinel() + tree + ['create ' + H(p)])
+            cases.append(['@fs'] + sentinel() + tree + ['dunlink %s 1' % H(p)])
+            cases.append(['@fs'] + sentinel() + tree + ['exists ' + H(p)])
     two = small_paths(['a', 'b', 'l', 'f', 'n'], 2) if thorough else small_paths(['a', 'b', 'l', 'f', 'n'], 1) + ['a/f', 'a/n', 'l/n', 'a/b', 'n/n']
     for tree in FIXED_TREES[1:]:
         for p in two:
@@ -404,7 +493,7 @@ def fs_text_judge(ops, obs):
                         if not wr or (fl & 8):
                             raise Bad('open-creates', 'open without writeFlag, or with openFlag, says true for a file that did not exist')
                         exp[T] = ('f', b'')
-                    if h not in H and not T.startswith('!'):
+                    if h not in H:
                         v = exp[T]
                         H[h] = {'path': T, 'pos': (len(v[1]) if (fl & 4) and v[0] == 'f' else 0), 'rd': rd, 'wr': wr, 'dir': v[0] == 'd'}
                 elif res[0] != '0':
@@ -508,6 +597,8 @@ def fs_text_judge(ops, obs):
                     # it is a prefix of the source's bytes, no other name may appear, nothing else may change
                     W = E if E in tree else D
                     src = tree[S][1]
+                    if fie or (W in tree and tok_of(W, tree[W]) in post_toks):
+                        relaxed_copy = []          # failIfExists never touches an existing destination; or nothing happened
                     sums, acc = [0], 0
                     for n in relaxed_copy:
                         if n <= 0:
@@ -515,9 +606,12 @@ def fs_text_judge(ops, obs):
                         acc = min(len(src), acc + n)
                         sums.append(acc)
                     fit = [n for n in sums if tok_of(W, ('f', src[:n])) in post_toks]
-                    if not fit:
+                    if relaxed_copy == []:
+                        pass
+                    elif not fit:
                         raise Bad('copy-partial-bytes', 'after a failed transfer the destination holds neither nothing nor a prefix of the source')
-                    exp[W] = ('f', src[:fit[-1]])
+                    else:
+                        exp[W] = ('f', src[:fit[-1]])
                 relaxed_copy = None
             elif op == 'exists':
                 S = pr.get('s', '-')
@@ -586,39 +680,72 @@ class C19(Check):
                   'every current directory; equivalent paths get the same text), directory+base and stem+extension recompose the '
                   'path, the scanners equal the reference "before/after the last separator (dot)", and from + getRelativePath(from,to) '
                   'simplifies to simplifyPath(to) whenever a lexical answer exists. B (files/directories): executable model of the '
-                  'library logic (open flag mapping, size/readAll/write/seek, rename with exclusive placeholder, copy, recursive '
-                  'create, recursive unlink by entry type) over a Gallina file-system tree with files, directories and symbolic links; '
-                  'any history on a read-write handle refines a byte buffer with cursor, copy/rename carry the bytes, failed '
-                  'open/rename change nothing and failed copy adds no name, create returns true iff the directory exists afterwards '
-                  'and then all parents exist, recursive unlink yields the tree with exactly that sub-tree cut out and refuses a '
-                  'symbolic link, every reachable tree is well-formed. The models are tied to the code by running extracted model, '
-                  'extracted reference and the ASan/UBSan build of the working tree on the same inputs: all path strings up to length '
-                  '7 over {/ \\ . a b} (thorough), and the real File/Directory code on scratch trees with an outside sentinel '
-                  'reached through symbolic links (results, full snapshots of both trees, handle cursors compared).')
-    level_note = ('Partial for B: the kernel (path resolution with symbolic links, open/read/write/lseek/sendfile/rename/unlink/'
-                  'mkdir/rmdir/symlink/stat/readdir; FsModel part K) is a trusted model, validated only by correspondence on one '
-                  'file system (ext4 of the sandbox, as root, no permission failures, no hard links); descriptors name files by '
-                  'canonical path, so a file renamed/unlinked while a handle on it is open is outside the model. The unlink theorem '
-                  'is stated for paths of proper names through real directories; unlink through \'.\', \'..\' or symbolic links, '
-                  'a second handle on the same file, read-only/write-only handles, File::unlink and createSymbolicLink are '
-                  'validated by correspondence only. create false => not-exists needs a path text without backslash (the code '
-                  'splits parents at backslashes too, the kernel does not). getRelativePath: from and to of the same kind and no '
-                  'leading \'..\' left in simplifyPath(from) (otherwise no lexical answer exists). For B the expected observations '
-                  'are those of the model of the repaired code. Trusted: Coq kernel, extraction + OCaml driver, harness, generators.')
-    technique = 'machine-checked proof (Coq) + model/implementation correspondence'
+                  'library logic (open flag mapping, size/readAll/write/seek, rename with source check and exclusive placeholder, '
+                  'copy with same-file refusal, transfer loop and clean-up, recursive create, recursive unlink by entry type) over a '
+                  'Gallina file-system tree with files, directories and symbolic links; any history on a read-write handle refines a '
+                  'byte buffer with cursor; a copy / rename that says true leaves exactly the state "tree before with the source\'s '
+                  'bytes at the resolved destination" / "with the source node moved there" (for every outcome of the kernel\'s '
+                  'transfer calls: short, empty, failing - an outcome oracle); failed open/rename change nothing, a failed copy '
+                  'changes nothing when transfers complete and otherwise at most the one destination file, which it removes again '
+                  'when it created it; create returns true iff the directory exists afterwards, on plain-name paths it succeeds and '
+                  'adds exactly the chain of missing directories; recursive unlink yields the tree with exactly that sub-tree cut out '
+                  'and refuses a symbolic link; every reachable tree is well-formed. The models are tied to the code by running '
+                  'extracted model and the ASan/UBSan build of the working tree on the same inputs: all path strings up to length 7 '
+                  'over {/ \\ . a b} (thorough), and the real File/Directory code on scratch trees with an outside sentinel reached '
+                  'through symbolic links (results, full snapshots of both trees, handle cursors, and what the real kernel says each '
+                  'path text denotes, compared). For B the implementation is judged twice: by an executable reading of the property '
+                  'text that does not use the model (checks/C19.py fs_text_judge: failure leaves the tree exactly as it was; copy/rename '
+                  'success = exactly the bytes / the node at the place the kernel resolves; handles = byte sequence with cursor; '
+                  'create true iff exists, only directories added; unlink removes exactly the named directory), then against the model.')
+    level_note = ('Partial for B: the kernel (path resolution with symbolic links, open/read/write/lseek/ftruncate/sendfile/rename/unlink/'
+                  'mkdir/rmdir/symlink/stat/lstat/readdir; FsModel part K) is a trusted model, validated only by correspondence on one '
+                  'file system (the sandbox reports ext2/ext3; uid 0, so no permission failures; no hard links); descriptors name files by '
+                  'canonical path, so a file renamed/unlinked while a handle on it is open is outside the model and the generators. '
+                  'Kernel outcomes: sendfile may be short / empty / failing (oracle, exercised through an interposed sendfile); single '
+                  'read() and write() calls are assumed to complete (File::write(String) reports a short write as false, readAll returns '
+                  'what one read() gives, i.e. at most 0x7ffff000 bytes) and ftruncate/fstat/lseek/close not to fail. A transfer that '
+                  'fails midway over a destination that existed before - or over a name that did not, reached through a symbolic link, '
+                  'which the second open creates - leaves the bytes that arrived (a prefix of the source): an atomic replace would be a '
+                  'redesign (temporary file + rename). The file-handle theorem is for read-write handles; read-only/write-only handles, a '
+                  'second handle on the same file, File::unlink and createSymbolicLink are covered by the text judge and correspondence '
+                  'only. The unlink theorem and create_succeeds are stated for relative texts of proper names through real directories '
+                  '(create_succeeds: names without backslash); unlink/create through \'.\', \'..\' or symbolic links by judge and '
+                  'correspondence only. create false => not-exists needs a path text without backslash (the code splits parents at '
+                  'backslashes too, the kernel does not). getRelativePath: from and to of the same kind and no leading \'..\' left in '
+                  'simplifyPath(from) (otherwise no lexical answer exists). Choices where the text is silent and the Spec/judge follows '
+                  'the code: simplifyPath keeps "/.." ; absolute = starts with a separator; appendFlag is one lseek to the end at open, '
+                  'not O_APPEND; only write-only without append/open flag truncates; a Directory::create that fails may leave the parents '
+                  'it made (directories, never files); File::rename(dir, new, failIfExists=true) always fails because the placeholder is a '
+                  'regular file (it reports failure and leaves nothing, so the text is met; making it work needs a directory '
+                  'placeholder); copy onto the same file is refused (EINVAL) even when the file is empty. Tie limits: contents up to '
+                  '200 KB (thorough 1 MiB; the extracted model computes on Peano numbers and lists), absolute paths only in the chroot '
+                  'stream (needs uid 0, skipped otherwise), path texts ending in a separator only for Directory::create/unlink/exists '
+                  '(the kernel model ignores a trailing separator, which is wrong for files and links under open/unlink/rename/copy: not '
+                  'generated), descriptor 0 is never free in the harness (File stores the descriptor with 0 meaning closed: an open that '
+                  'got descriptor 0 would report isOpen() false and leak). Trusted: Coq kernel, extraction + OCaml driver, harness, '
+                  'generators, the Python judge.')
+    technique = 'machine-checked proof (Coq) + model/implementation correspondence + executable property-text judge'
     rule = ('A: every string of length <= 5 (thorough 7) over {/ \\ . a b} through all scanners, simplifyPath twice and '
             'isAbsolutePath; every pair of strings of length <= 3 (4) through getRelativePath; explicit extensions; random longer '
             'paths from a vocabulary of components sharing prefixes. Non-trivial = a path with a separator and a name. '
             'B: one case = a scratch tree (random or one of 4 fixed trees: directories, files, symbolic links to ../out, to '
-            'files, dangling, self-referential) + operations: handle histories under every open-flag mapping with re-read, '
-            'copy/rename of the result; create/unlink on existing, missing, file-in-the-way, dotted and linked paths; '
-            'rename/copy/open aimed at each failure branch; exhaustively every path of <= 2 (3) components over {a b l [f] . ..} '
-            'for create/unlink and every pair of short paths for rename/copy with both failIfExists values. Non-trivial = a '
-            'library operation ran and its answer was observed; distinct = distinct op text.')
-    assumptions = ['kernel file-system semantics as modelled in coq/Path/FsModel.v part K (validated by correspondence on ext4, uid 0)',
+            'files, dangling, self-referential) + operations: handle histories under every open-flag mapping (incl. empty writes '
+            'behind the end) with re-read, copy/rename of the result; create/unlink/exists on existing, missing, file-in-the-way, '
+            'dotted, linked paths and paths ending in separators; rename/copy/open aimed at each failure branch (incl. source = '
+            'destination directly, through links and other spellings, missing source onto itself); copy under every kind of '
+            'sendfile outcome (short, empty, failing; destination new, existing, dangling link, outside); contents of 64 KiB..200 KB '
+            '(1 MiB) through readAll/read/write/append/copy/rename; absolute path texts and link targets, the root and its children, '
+            'inside a chroot; exhaustively every path of <= 2 (3) components over {a b l [f] . ..} for create/unlink and every pair '
+            'of short paths for rename/copy with both failIfExists values. Non-trivial = a library operation ran and its answer was '
+            'observed; distinct = distinct op text.')
+    assumptions = ['kernel file-system semantics as modelled in coq/Path/FsModel.v part K (validated by correspondence on the sandbox file system, reported as ext2/ext3, uid 0)',
                    'no file is renamed or unlinked while a handle on it is open; no hard links; no permission failures',
+                   'single read()/write() calls complete; ftruncate/fstat/lseek/close do not fail (sendfile may be short or fail: modelled)',
+                   'readdir reports exact entry types (dirent.d_type never DT_UNKNOWN: Directory::unlink would take a directory for a file and fail); the order of readdir does not matter as long as no removal fails midway',
+                   'descriptor 0 is in use (File treats descriptor 0 as "closed")',
+                   'path texts ending in a separator: only Directory::create/unlink/exists',
                    'getRelativePath: same kind of from/to, simplifyPath(from) has no leading ".."',
-                   'Directory::create false => not-exists: path text without backslash']
+                   'Directory::create false => not-exists: path text without backslash; create_succeeds / unlink theorems: relative texts of proper names through real directories']
 
     FS_SETUP = ('mkd', 'mkf', 'mkl')
 
@@ -739,6 +866,11 @@ class C19(Check):
                           note='rename / copy / open aimed at their failure branches'))
         out.append(Stream('fs-transfer', fs_transfer_cases(rng, 1500 if thorough else 250, True),
                           note='File::copy with short, empty and failing sendfile calls (outcome oracle), sources up to 128 KiB'))
+        out.append(Stream('fs-big', fs_big_cases(rng, 48 if thorough else 12, thorough),
+                          note='contents of 64 KiB .. %s through readAll / read / write / append / copy / rename' % ('1 MiB' if thorough else '200 KB')))
+        if os.geteuid() == 0:
+            out.append(Stream('fs-absolute', fs_absolute_cases(rng, 1200 if thorough else 250),
+                              note='absolute path texts and link targets inside a chroot (root = the model\'s root), the root directory and its children'))
         out.append(Stream('fs-exhaustive', fs_exhaustive_cases(thorough), exhaustive=True,
                           note='create / unlink on every short path, rename / copy on every pair of short paths, over %d fixed trees' % len(FIXED_TREES)))
         return out
